@@ -1,6 +1,7 @@
 //! C19 — file output is all-or-error. Workload, fault-plan generation,
 //! execution against the real crate under the syscall shim, and the oracle.
 
+pub mod conc;
 pub mod driver;
 pub mod shim;
 pub mod shrink;
@@ -394,7 +395,7 @@ fn free_write_idx(rng: &mut Rng, p: &PlanSpec, span: u64) -> u32 {
     p.write.iter().map(|(i, _)| *i).max().unwrap_or(0) + 1
 }
 
-fn gen_qr_for_io(rng: &mut Rng, kind: Kind) -> QrCfg {
+pub fn gen_qr_for_io(rng: &mut Rng, kind: Kind) -> QrCfg {
     // SVG bodies should sometimes be large (V40 ≈ 200 kB) so that short writes
     // recur many times; PNG rendering is slower, so it stays small more often.
     let big = match kind {
@@ -402,7 +403,7 @@ fn gen_qr_for_io(rng: &mut Rng, kind: Kind) -> QrCfg {
         Kind::Png => rng.chance(1, 40),
     };
     let max_len = if big { 2900 } else { 120 };
-    let class = gen::INPUT_CLASSES[rng.weighted(&[20, 20, 25, 25, 4, 3, 3])];
+    let class = gen::INPUT_CLASSES[rng.weighted(&[20, 20, 25, 25, 4, 3, 3, 0, 0])];
     let len = if big { rng.range(400, max_len as u64) as usize } else { gen::gen_len(rng, max_len).max(1) };
     let input = gen::gen_input_of(rng, class, len);
     let mut c = gen::gen_cfg_over(rng, input, 40, false);
@@ -680,7 +681,7 @@ fn resolve_path(dir: &Path, t: &Target) -> String {
     }
 }
 
-fn exec_op(dir: &Path, idx: usize, op: &IoOp, stats: &mut Stats) -> OpReport {
+pub fn exec_op(dir: &Path, idx: usize, op: &IoOp, stats: &mut Stats) -> OpReport {
     stats.ops += 1;
     let mut rep = OpReport {
         skipped: None,
